@@ -60,9 +60,11 @@ func execDelete(ctx context.Context, env *Env, st *State, op Op, rep *kit.Report
 					all[kk] = true
 				}
 				ApplyDelete(tm, op, all)
-				if dataDomainOutsideIndex(tm, tm.Chans[k]) {
+				// ... or the request changed nothing and the layout of that finding was there
+				// before it (left by an earlier delete that nothing has read since)
+				if dataDomainOutsideIndex(tm, tm.Chans[k]) || dataDomainOutsideIndex(st.M, c) {
 					sig = "read-error:data-domain-start-outside-index-coverage"
-				} else if IndexLostCoverage(ctx, env.DB, tm, tm.Chans[k]) {
+				} else if IndexLostCoverage(ctx, env.DB, tm, tm.Chans[k]) || IndexLostCoverage(ctx, env.DB, st.M, c) {
 					sig = "read-error:data-domain-end-outside-index-coverage"
 				}
 			}
